@@ -140,8 +140,11 @@ def summarize(name, lines, meta, res, t_run, cut_ids=None):
         body = r["line"].split("|", 2)[2]
         nt = False
         last_extra = {}
+        d4_idx = None
         for ln in r["impl"]["lines"]:
             pr = P.parse_line(ln)
+            if d4_idx is None and (pr["extra"] or {}).get("d4") == "1":
+                d4_idx = pr["idx"]      # the call in which the known-finding condition D4 first occurred
             kinds[pr.get("kind", pr["out"].split(":")[0])] += 1
             if pr.get("D"):
                 nt = True
@@ -164,7 +167,7 @@ def summarize(name, lines, meta, res, t_run, cut_ids=None):
         # history; then the theorems predict: no fault, invariant, so no C01/C02/C05/C06/C08 oracle may fire
         cls = {"disc": last_extra.get("disc", "1"), "d4": last_extra.get("d4", "0"),
                "loop": last_extra.get("loop", "0"), "esc": last_extra.get("esc", "0"),
-               "hyp": "0" if hid in cut_ids else "1"}
+               "hyp": "0" if hid in cut_ids else "1", "d4_idx": d4_idx}
         if r["diff"]:
             d = r["diff"]
             problems.append({"type": "diff", "hid": hid, "line": r["line"], "idx": d["idx"],
